@@ -26,6 +26,55 @@ class HistState:
         return self.snap
 
 
+def inproc_restart(st, op):
+    """
+    The whole labelled world through edgegraph's own pickler and back, in this
+    process; the history then continues on the copy.  -> "ok" | "failed" |
+    "changed" (the round trip itself altered the public structure: C10's
+    matter, the run ends quietly).  What this is for: private state that is
+    right in the process that built it and wrong in the copy shows only when
+    the history goes on.
+    """
+    import pickle
+
+    from edgegraph.output import nrpickler
+    from egsim import classes as C
+
+    w = st.ex.w
+    before = w.snapshot()
+    box = C.WorldBox(list(w.objs), list(w.objs.values()))
+    try:
+        data = nrpickler.dumps(box, protocol=op.get("proto", 4))
+        if op.get("loader") == "dill":
+            import dill
+
+            box2 = dill.loads(data)
+        else:
+            box2 = pickle.loads(data)
+    except Exception:  # pylint: disable=broad-except
+        st.stats["note:restart-round-trip-failed"] += 1
+        return "failed"
+    w2 = World()
+    for lab, obj in zip(box2.labels, box2.objs):
+        w2.add(lab, obj, w.kind[lab])
+    w2._disc = dict(w._disc)  # pylint: disable=protected-access
+    st.ex.w = w2
+    # containers the simulated client was holding referred to the old objects;
+    # they do not survive the restart either
+    st.ex.shared = {}
+    st.ex.held = {}
+    st.stats["fault:restart"] += 1
+    st.stats["restart:inproc"] += 1
+    if w2.snapshot() != before:
+        st.stats["note:restart-changed-the-structure"] += 1
+        return "changed"
+    return "ok"
+
+
+def restart_op(rng):
+    return {"op": "roundtrip", "proto": rng.randint(0, 5), "loader": rng.choice(["pickle", "dill"])}
+
+
 def probe_link_op(st, op):
     """Reach probes for link-affecting operations, from the pre-state view."""
     s = st.stats
@@ -115,6 +164,7 @@ def std_struct_config(rng, *, kinds, always=(), multi_p=0.3, lo=3, hi=60, mean=1
     cfg["universe_classes"] = rng.choice(
         [["Universe"], ["Universe", "SubUniverse"], ["Universe", "FalsyUniverse"], ["FalsyUniverse", "SubUniverse"]]
     )
+    cfg["restarts"] = rng.random() < 0.3  # pickle round trips (in process) in mid-history
     cfg["multi"] = rng.random() < multi_p
     cfg["nmv"] = rng.randint(1, 3)
     kinds = list(kinds)
@@ -154,6 +204,10 @@ class ModelProperty(engine.Property):
             st.pending_setup = gen.setup_ops(rng, cfg, st.namer)
         if st.pending_setup:
             return st.pending_setup.pop(0)
+        if getattr(st, "ended", False):
+            return None
+        if cfg.get("restarts") and rng.random() < 0.04:
+            return restart_op(rng)
         for _ in range(20):
             kind = gen.weighted_choice(rng, cfg["weights"])
             op = st.gen.draw(rng, st.view, st.namer, kind)
@@ -181,6 +235,14 @@ class ModelProperty(engine.Property):
         return f"{self.id}/state-differs-from-model:{op['op']}"
 
     def execute(self, st, op):
+        if getattr(st, "ended", False):
+            return None, None
+        if op["op"] == "roundtrip":
+            r = inproc_restart(st, op)
+            if r == "changed":
+                st.ended = True
+            st.refresh()
+            return {"restart": r}, None
         # the model is advanced only if the real side executes the operation
         for key in ("e", "v", "u", "a", "b", "x", "L"):
             ref = op.get(key)
